@@ -12,6 +12,7 @@
 from __future__ import annotations
 
 import math
+import random
 import re
 import sys
 import types
@@ -929,15 +930,33 @@ def shapes_part(ctx: vlib.Ctx, mod, mem: Members):
     expr_of = {repr(eval(e, mod.__dict__)): e for e in SCALAR_EXPRS + NONSCALAR_EXPRS}
     expr_of[repr(NoneType)] = "None"
     n_shapes = ctx.budget(330, 1500)
-    for it in range(n_shapes):
-        shape = names[it % len(names)]
+    # systematic prefix (own random stream, the sampled part below is unchanged by it): EVERY shape x EVERY entry point
+    # (codec / field / nullable field: could_be_none handed down as False) x both directions with an Optional position
+    # that receives None -- the null member must match null at every nesting, whatever the enclosing spec says
+    entries = ["codec", "field", "optfield"]
+    n_sys = len(names) * len(entries) * 2
+    srng = random.Random(ctx.seed * 7919 + 11)
+    main_rng = rng
+    for it in range(-n_sys, n_shapes):
+        systematic = it < 0
+        rng = srng if systematic else main_rng
+        k = it + n_sys
+        shape = names[(k // 2) % len(names)] if systematic else names[it % len(names)]
         encode = it % 2 == 1
         nh = SHAPES[shape][0]
         h0 = gen_hole(rng, encode)
+        if systematic:
+            inner = rng.choice(OPT_INNER)
+            h0 = [inner, "None"] if rng.random() < 0.7 else ["None", inner]
         # the second hole: the same members in another order (typing equality ignores the order), or independent
         h1 = permuted(rng, h0) if rng.random() < 0.6 else gen_hole(rng, encode)
+        if systematic:      # both holes Optional, independent inner types
+            inner1 = rng.choice(OPT_INNER)
+            h1 = [inner1, "None"] if rng.random() < 0.7 else ["None", inner1]
         holes = [hole_expr(h0), hole_expr(h1)][:nh]
-        entry = rng.choice(["codec", "field", "optfield"])
+        entry = rng.choice(entries)
+        if systematic:
+            entry = entries[(k // 2) // len(names)]
         try:
             site = ShapeSite(mod, shape, holes, entry)
         except Exception as e:
@@ -966,6 +985,16 @@ def shapes_part(ctx: vlib.Ctx, mod, mem: Members):
                 else:
                     a = rng.choice(ORDER_SENSITIVE if rng.random() < 0.6 else DECODE_INPUTS)
                     b = a if rng.random() < 0.5 else rng.choice(ORDER_SENSITIVE if rng.random() < 0.6 else DECODE_INPUTS)
+                    if systematic and rep_i < 2:
+                        # one slot receives None, the other an input its hole accepts (so that a raise of the whole is a verdict)
+                        def okin(i):
+                            c = []
+                            for dx in DECODE_INPUTS:
+                                d0 = eval(dx, mod.__dict__)
+                                if d0 is not None and ref_union_decode(infos[i][1], d0, lambda m, d0=d0: mem.accept(m, d0))[0] == "ok":
+                                    c.append(dx)
+                            return rng.choice(c) if c else "None"
+                        a, b = ("None", okin(1)) if rep_i == 0 else (okin(0), "None")
                 inx = site.fmt(site.in_tpl, a, b)
                 whole = outcome(site.decode, eval(inx, mod.__dict__))
                 exps, ds = [], []
@@ -1013,7 +1042,7 @@ def shapes_part(ctx: vlib.Ctx, mod, mem: Members):
                     cands = []
                     for m in members:
                         cands += ENCODE_VALUES.get(expr_of.get(repr(m), ""), [])
-                    if NoneType in members and rng.random() < 0.45:
+                    if NoneType in members and (rng.random() < 0.45 or (systematic and rep_i == i)):
                         cands = ["None"]
                     if not cands:
                         ok = False
@@ -1852,6 +1881,11 @@ def rec_part(ctx: vlib.Ctx, mod, mem: Members):
             if expected[0] != "ok":
                 continue
             uobs = outcome(usite.encode, v)
+            if not same(uobs, outcome(usite2.encode, v)):
+                # e.g. a str-mixin enum member captured by an earlier List[R] packer (finding union-encode-untyped-try): the
+                # nesting of the result is the unfolding depth / the recursion limit
+                ctx.hist("rec_outcome", "encode/depth-sensitive-skipped")
+                continue
             observed = outcome(site.encode, v)
             if same(observed, expected):
                 cls = "agree"
